@@ -239,10 +239,35 @@ func (e *engine) scripted(code int, b *behT, status int) func(ctx context.Contex
 		case 'G':
 			// an error together with a (declared) status: the status must be ignored
 			return st(gst), userErr{z}
-		case 'P':
-			return r.Pause(ctx, "scripted pause")
-		default:
+		case 'P', 'X':
+			if fr := e.s.find(r.RunID); e.c.opt["extctl"] != 0 && fr != nil && fr.RunState == workflow.RunStateRunning {
+				// (only when the stored run is Running: the Run handed to a function is promoted from Initiated to Running
+				// in memory, so on an Initiated stored record a separate controller would be a different request)
+				// the same action taken through a SEPARATE controller on a fresh copy of the stored record (an operator's
+				// handle, not the Run handed to this function): the engine's in-memory snapshot of the run is not touched.
+				// Same modelled action (one controller write, then skip); harness-only option, ignored by the model parser
+				fresh := e.s.find(r.RunID)
+				if fresh == nil {
+					return 0, errors.New("extctl: run not found")
+				}
+				ctl := workflow.NewRunStateController(simStore{e.s}.Store, cloneRec(fresh))
+				var err error
+				if tag == 'P' {
+					err = ctl.Pause(ctx, "scripted pause")
+				} else {
+					err = ctl.Cancel(ctx, "scripted cancel")
+				}
+				if err != nil {
+					return 0, err
+				}
+				return st(workflow.SkipTypeRunStateUpdate), nil
+			}
+			if tag == 'P' {
+				return r.Pause(ctx, "scripted pause")
+			}
 			return r.Cancel(ctx, "scripted cancel")
+		default:
+			panic("behaviour tag")
 		}
 	}
 }
